@@ -111,9 +111,9 @@ macro_rules! unit_num_budget {
         }
     };
 }
-unit_num!(c05_unit_u16_s0, 2, 0, 4);
+unit_num!(c05_unit_u16_s0, 2, 0, 6);
 unit_num!(c05_unit_u16_s5, 2, 5, 6);
-unit_num!(c05_unit_u32_s4, 4, 4, 4);
+unit_num!(c05_unit_u32_s4, 4, 4, 6);
 unit_num!(c05_unit_u32_s9, 4, 9, 6);
 unit_num!(c05_unit_u64_s8, 8, 8, 10);
 unit_num!(c05_unit_u64_s17, 8, 17, 10);
@@ -154,6 +154,116 @@ fn c05_unit_bin_s6() {
 
 // Level H (whole headers through Header::parse) is decided by the MIR engine: engines/harnesses_pkg.py hdr_parse.
 // Under Kani the same harnesses did not finish in 30 minutes (see DESIGN.md).
+
+// ---------------------------------------------------------------------------------------------
+// Native replay support for counterexamples of the MIR engine that concern crate-private code
+// (Header::from_entries): the structural rules of the property, checked on the emitted bytes.
+// Same rules as engines/harnesses_pkg.py validate_header (after rpm's hdrblobVerifyInfo/Region).
+// ---------------------------------------------------------------------------------------------
+#[cfg(test)]
+pub fn verif_check_header_bytes(b: &[u8], region: u32) -> Result<(), String> {
+    let be32 = |o: usize| u32::from_be_bytes([b[o], b[o + 1], b[o + 2], b[o + 3]]);
+    if b.len() < 16 || b[..4] != [0x8e, 0xad, 0xe8, 0x01] || b[4..8] != [0, 0, 0, 0] {
+        return Err("bad intro".into());
+    }
+    let n = be32(8) as usize;
+    let sz = be32(12) as usize;
+    if b.len() != 16 + 16 * n + sz {
+        return Err(format!("intro counts ({n} entries, {sz} store bytes) do not match the {} bytes written", b.len()));
+    }
+    if n == 0 {
+        return Err("no region entry".into());
+    }
+    let st = &b[16 + 16 * n..];
+    let ent = |i: usize| (be32(16 + 16 * i), be32(20 + 16 * i), be32(24 + 16 * i) as i32, be32(28 + 16 * i));
+    let (rtag, rty, roff, rcnt) = ent(0);
+    if rtag != region || rty != 7 || rcnt != 16 {
+        return Err("first entry is not the region tag (BIN, count 16)".into());
+    }
+    if roff < 0 || roff as usize + 16 != st.len() {
+        return Err("region trailer is not at the end of the store".into());
+    }
+    let roff = roff as usize;
+    let mut want = Vec::new();
+    want.extend_from_slice(&region.to_be_bytes());
+    want.extend_from_slice(&7u32.to_be_bytes());
+    want.extend_from_slice(&((-16 * n as i32) as u32).to_be_bytes());
+    want.extend_from_slice(&16u32.to_be_bytes());
+    if st[roff..] != want[..] {
+        return Err("region trailer does not point back over exactly all entries".into());
+    }
+    let mut prev_tag: Option<u32> = None;
+    let mut prev_end = 0usize;
+    for i in 1..n {
+        let (tag, ty, off, cnt) = ent(i);
+        if let Some(p) = prev_tag {
+            if tag <= p {
+                return Err(format!("tags are not in strictly ascending order ({p} then {tag})"));
+            }
+        }
+        prev_tag = Some(tag);
+        let al = match ty {
+            3 => 2,
+            4 => 4,
+            5 => 8,
+            0..=9 => 1,
+            _ => return Err(format!("type {ty} out of range")),
+        };
+        if off < 0 || off as usize % al != 0 {
+            return Err(format!("offset {off} of a type-{ty} entry is not aligned to {al}"));
+        }
+        let off = off as usize;
+        if cnt == 0 {
+            return Err("entry with zero count".into());
+        }
+        if off < prev_end {
+            return Err("entry data overlaps the previous entry".into());
+        }
+        let ln = match ty {
+            6 | 8 | 9 => {
+                let mut j = off;
+                for _ in 0..cnt {
+                    while j < roff && st[j] != 0 {
+                        j += 1;
+                    }
+                    if j >= roff {
+                        return Err("unterminated string in the store".into());
+                    }
+                    j += 1;
+                }
+                j - off
+            }
+            _ => cnt as usize * al,
+        };
+        if off + ln > roff {
+            return Err("entry data runs past the end of the data area".into());
+        }
+        prev_end = off + ln;
+    }
+    Ok(())
+}
+
+/// from_entries -> write -> structural rules -> parse back and compare every record's data
+#[cfg(test)]
+pub fn verif_replay_from_entries<T: Tag>(recs: Vec<(u32, IndexData)>, region: T) -> Result<(), String> {
+    let entries: Vec<IndexEntry<T>> = recs
+        .iter()
+        .map(|(t, d)| IndexEntry { tag: *t, offset: 0, num_items: d.num_items(), data: d.clone(), entry_type: PhantomData })
+        .collect();
+    let h = Header::<T>::from_entries(entries, region);
+    let mut out = Vec::new();
+    h.write(&mut out).map_err(|e| format!("write failed: {e}"))?;
+    verif_check_header_bytes(&out, region.to_u32())?;
+    let back = Header::<T>::parse(&mut &out[..]).map_err(|e| format!("assembled header does not parse back: {e}"))?;
+    for (t, d) in recs.iter() {
+        match back.index_entries.iter().find(|e| e.tag == *t) {
+            None => return Err(format!("record {t} is missing from the assembled header")),
+            Some(e) if e.data != *d => return Err(format!("record {t} read back as {:?}, put in as {:?}", e.data, d)),
+            _ => {}
+        }
+    }
+    Ok(())
+}
 
 #[cfg(test)]
 include!("/verif/replays/_gen/header.rs");
